@@ -520,3 +520,124 @@ Section Count12.
         * cbn [fold_left]. apply HLB3.
   Qed.
 End Count12.
+
+Definition nonthr (c : call) : Prop :=
+  match c with CSend m _ => resp_body m <> BThrottle | _ => True end.
+
+Lemma ocs_G_nonthr : forall lim new o, Forall nonthr new -> G o -> G (fold_left (o_call lim) new o).
+Proof.
+  intros lim new; induction new as [|c new IH]; intros o Hn HG; cbn [fold_left]; [exact HG|].
+  inversion Hn; subst. apply IH; [assumption|]. apply ocall_G_other; assumption.
+Qed.
+
+Lemma nexts_nonthr : forall new, Forall is_next new -> Forall nonthr new.
+Proof. intros new H. eapply Forall_impl; [|exact H]. intros c Hc. destruct c; try contradiction; exact I. Qed.
+
+Lemma drop_entry_one : forall l e, NoDup (map e_id l) -> In e l -> length l = S (length (drop_entry (e_id e) l)).
+Proof.
+  induction l as [|x r IH]; intros e Hnd Hin; [destruct Hin|]. cbn in Hnd. inversion Hnd as [|? ? Hni Hnd']; subst.
+  cbn [drop_entry filter]. destruct Hin as [->|Hin].
+  - rewrite N.eqb_refl. cbn [negb]. f_equal.
+    assert (E : filter (fun e0 => negb (N.eqb (e_id e0) (e_id e))) r = r).
+    { clear -Hni. induction r as [|y r IH]; [reflexivity|]. cbn.
+      destruct (N.eqb (e_id y) (e_id e)) eqn:E.
+      - exfalso. apply Hni. left. apply N.eqb_eq in E. exact E.
+      - cbn. f_equal. apply IH. intro H. apply Hni. right. exact H. }
+    unfold drop_entry. rewrite E. reflexivity.
+  - destruct (N.eqb (e_id x) (e_id e)) eqn:E.
+    + exfalso. apply Hni. apply N.eqb_eq in E. rewrite E. apply in_map. exact Hin.
+    + cbn [negb length]. f_equal. apply (IH e Hnd' Hin).
+Qed.
+
+Section Count12b.
+  Context {T : Type}.
+  Variable tp : transport T response cmsg.
+  Variable lim : option nat.
+  Notation st := (@sstate T).
+  Notation ocs := (fold_left (o_call lim)).
+  Variable o0 : ostate.
+  Variable s0 : st.
+  Hypothesis HI0 : InvU o0 s0.
+  Hypothesis HN0 : h_b1 (o_v o0) = true -> NSh o0 s0.
+  Hypothesis HF0 : FM o0.
+
+  Lemma base_c' : forall f (s : st) r s' o n,
+    BInv o s -> OM o0 o -> SM s0 s -> LB n o s -> G o -> base_poll_next tp f s = (r, s') ->
+    exists new, ext s s' new /\ post r (ocs new o) s' /\ SM s0 s'
+      /\ LB (n + match r with PReady _ => 1 | _ => 0 end) (ocs new o) s' /\ G (ocs new o).
+  Proof.
+    intros f s r s' o n HB HOM HSM HLB HG H.
+    destruct (base_c tp lim o0 s0 HI0 HN0 HF0 f s r s' o n HB HOM HSM HLB H) as (new & X & P & S & L).
+    exists new. split; [exact X|split; [exact P|split; [exact S|split; [exact L|]]]].
+    destruct (base_ext tp _ _ _ _ H) as (new' & X' & Fn).
+    assert (new' = new) by (eapply ocs_ext_unique; eauto). subst new'.
+    apply ocs_G_nonthr; [apply nexts_nonthr, Fn|exact HG].
+  Qed.
+
+  (* MaxRequests::poll_next *)
+  Lemma maxreq_c : forall f limit (s : st) r s' o,
+    lim = Some limit -> BInv o s -> OM o0 o -> SM s0 s -> G o ->
+    maxreq_poll_next tp f limit s = (r, s') ->
+    exists new, ext s s' new /\ post r (ocs new o) s' /\ SM s0 s' /\ G (ocs new o).
+  Proof.
+    induction f as [|f IH]; intros limit s r s' o Hlim HB HOM HSM HG H; cbn [maxreq_poll_next] in H.
+    { injection H as <- <-. exists []. split; [apply ext_refl|auto]. }
+    destruct (limit <=? length (s_inflight s)) eqn:EL.
+    2: { assert (HL0 : LB 0 o s) by (intros _; left; lia).
+         destruct (base_c' _ _ _ _ _ 0 HB HOM HSM HL0 HG H) as (new & A & B & D & _ & E). exists new. auto. }
+    apply Nat.leb_le in EL.
+    destruct (do_ready tp s) as [x s1] eqn:ER.
+    pose proof (BInv_ready tp lim _ _ _ _ HB ER) as HB1.
+    destruct (do_ready_core tp _ _ _ ER) as (C1 & _ & _ & _ & _ & L1).
+    assert (E01 : ext s s1 [CReady x]) by (unfold ext; rewrite L1; reflexivity).
+    assert (HOM1 : OM o0 (o_call lim o (CReady x))) by (eapply OM_trans; [exact HOM|apply OM_call]).
+    assert (HSM1 : SM s0 s1) by (eapply SM_core; eauto).
+    assert (HG1 : G (o_call lim o (CReady x))) by (apply ocall_G_other; [exact I|exact HG]).
+    assert (HL1 : LB limit (o_call lim o (CReady x)) s1).
+    { intros _. left. destruct C1 as (_ & _ & D3 & _). rewrite D3. exact EL. }
+    destruct x; try (injection H as <- <-; eexists; split; [exact E01|auto]).
+    destruct (base_poll_next tp (S f) s1) as [y s2] eqn:EB.
+    destruct (base_c' _ _ _ _ _ limit HB1 HOM1 HSM1 HL1 HG1 EB) as (n2 & E2 & Post2 & HSM2 & HL2 & HG2).
+    assert (E02 : ext s s2 ([CReady TOk] ++ n2)) by (eapply ext_trans; eauto).
+    destruct y as [q| |a| |];
+      try (injection H as <- <-; eexists; split; [exact E02|]; rewrite ocs_app; cbn [fold_left]; auto).
+    destruct Post2 as ((HI2 & HP2 & Hce2) & Hin2).
+    set (o2 := ocs n2 (o_call lim o (CReady TOk))) in *.
+    destruct (base_start_send tp (mkresp (q_id q) BThrottle) s2) as [e s3] eqn:ESS.
+    destruct (step_throttle tp lim _ s2 q e s3 HI2 HP2 Hce2 Hin2 ESS) as (rr & L3 & He & HI3 & Hp3 & Hce3 & Hi3).
+    cbv zeta in *.
+    set (o3 := o_call lim o2 (CSend (mkresp (q_id q) BThrottle) rr)) in *.
+    assert (E03 : ext s s3 (([CReady TOk] ++ n2) ++ [CSend (mkresp (q_id q) BThrottle) rr])).
+    { eapply ext_trans; [exact E02|]. unfold ext. rewrite L3. reflexivity. }
+    assert (Hh3 : handled s3).
+    { intros e0 He0. rewrite Hi3 in He0. apply in_drop_entry in He0. destruct He0 as [He0 Hne].
+      destruct HP2 as (_ & Q2 & _).
+      destruct (base_start_send_shape tp _ _ _ _ ESS) as [(_ & _ & ->)|(_ & _ & _ & _ & _ & _ & B3 & _)].
+      - destruct (classic_handled s2 e0) as [Hy|Hn]; [exact Hy|].
+        exfalso. pose proof (Q2 e0 He0 Hn) as ->. cbn in Hne. congruence.
+      - rewrite B3. destruct (classic_handled s2 e0) as [Hy|Hn]; [exact Hy|].
+        exfalso. pose proof (Q2 e0 He0 Hn) as ->. cbn in Hne. congruence. }
+    assert (Hocs3 : ocs (([CReady TOk] ++ n2) ++ [CSend (mkresp (q_id q) BThrottle) rr]) o = o3).
+    { rewrite ocs_app. cbn [fold_left]. rewrite ocs_app. cbn [fold_left]. reflexivity. }
+    assert (HB3 : BInv o3 s3) by exact (conj HI3 (conj Hh3 Hce3)).
+    assert (HSM3 : SM s0 s3).
+    { destruct (base_start_send_shape tp _ _ _ _ ESS) as [(_ & _ & ->)|(_ & _ & _ & _ & B1 & _ & B3 & B4 & _ & B6 & _)];
+        [exact HSM2|].
+      apply (SM_shrink s0 s2 s3 HSM2); rewrite ?B1, ?B3, ?B4, ?B6; auto.
+      intros e0 He0. apply in_drop_entry in He0. tauto. }
+    assert (HG3 : G o3).
+    { apply ocall_G_thr; [exact HG2|]. intros Hb. destruct (HL2 Hb) as [Hl|Hf]; [left|right; exact Hf].
+      unfold enough_at. rewrite Hlim. apply Nat.leb_le.
+      destruct (ocall_send_proj lim o2 (mkresp (q_id q) BThrottle) rr) as (_ & _ & _ & _ & _ & _ & Hinc & _).
+      cbv zeta in Hinc. cbn [resp_body resp_id] in Hinc. fold o3 in Hinc. rewrite <- Hinc.
+      pose proof (count_le o3 s3 HI3 Hh3 Hce3) as Hcnt.
+      pose proof (drop_entry_one (s_inflight s2) _ (u_idnodup _ _ HI2) Hin2) as Hone. unfold entry_of in Hone; cbn [e_id] in Hone.
+      rewrite <- Hi3 in Hone. lia. }
+    destruct e as [a|].
+    - injection H as <- <-. eexists; split; [exact E03|]. rewrite Hocs3. auto.
+    - assert (HOM3 : OM o0 o3).
+      { eapply OM_trans; [exact HOM1|]. eapply OM_trans; [apply (OM_calls lim n2)|apply OM_call]. }
+      destruct (IH _ _ _ _ o3 Hlim HB3 HOM3 HSM3 HG3 H) as (n4 & E4 & Post4 & S4 & G4).
+      eexists; split; [eapply ext_trans; [exact E03|exact E4]|]. rewrite ocs_app, Hocs3. auto.
+  Qed.
+End Count12b.
